@@ -557,7 +557,7 @@ func (e *Engine) runInits() {
 		shadow: map[*Obj]*Obj{}, mshadow: map[*MapObj]*MapObj{}, touched: map[*ssa.Function]bool{},
 		loopBound: map[string]int{}, replace: map[*ssa.Function]Value{}, inReplacement: map[*ssa.Function]bool{},
 		choices: map[string]int{}, nameCount: map[string]int{}, maxSteps: 1 << 62, unwind: 1 << 30, allocLimit: 1 << 30,
-		mutex: map[string]int{}, hashes: map[*Obj]*hashGhost{}, ghostVal: map[string]Value{}, isInit: true, bypass: map[*ssa.Function]bool{}}
+		mutex: map[string]int{}, hashes: map[*Obj]*hashGhost{}, ghostVal: map[string]Value{}, isInit: true, bypass: map[*ssa.Function]bool{}, tabulate: map[*ssa.Function]bool{}}
 	r.h = &HarnessRun{eng: e, name: "init", outcomes: map[string]int{}, outcomeMsg: map[string]string{}, bounds: map[string]string{},
 		stubs: map[string]bool{}, assumptions: map[string]bool{}, asserts: map[string]int{}, assertsFolded: map[string]int{}}
 	for _, sp := range order {
